@@ -2,26 +2,33 @@ package main
 
 import (
 	"bytes"
-	"context"
 	"fmt"
 
 	"github.com/hedzr/logg/slog"
 )
 
 func main() {
-	snap := slog.VerifSnapshot()
-	for i := 0; i < 2; i++ {
-		slog.VerifRestore(snap)
-		slog.SetFlags(slog.LstdFlags | slog.LnoInterrupt | slog.Lcaller)
+	slog.SetFlags((slog.LstdFlags | slog.LnoInterrupt) &^ slog.Lcaller)
+	for _, f := range []string{"json", "logfmt", "color"} {
 		var b bytes.Buffer
-		root := slog.VerifEntryOf(slog.New("root"))
-		l := root.New("probed").SetWriter(&b).SetJSONMode(true).SetLevel(slog.AlwaysLevel)
-		if i == 1 {
-			restore := slog.SaveFlagsAndMod(slog.Lcaller, slog.Lprivacypath|slog.Lprivacypathregexp)
-			l.LogAttrs(context.Background(), slog.ErrorLevel, "scoped")
-			restore()
+		l := slog.New("o").SetWriter(&b).SetErrorWriter(&b).SetLevel(slog.AlwaysLevel)
+		switch f {
+		case "json":
+			l.SetJSONMode(true)
+		case "logfmt":
+			l.SetColorMode(false)
+		default:
+			l.SetColorMode(true)
 		}
-		l.LogAttrs(context.Background(), slog.ErrorLevel, "after")
-		fmt.Print(b.String())
+		mem := func() []slog.Attr {
+			return []slog.Attr{slog.Int("b", 2), slog.Int("a", 1), slog.NewGroupedAttr("h", slog.String("x", "y"))}
+		}
+		l.Info("m", slog.NewGroupedAttr("g", mem()...))
+		l.Info("m", slog.NewAttr("g", slog.Attrs(mem())))
+		l.Info("m", slog.NewAttr("g", mem()))
+		l.Info("m", slog.Group("g", mem()[0], mem()[1], mem()[2]))
+		l.Info("m", slog.NewGroupedAttrEasy("g", "b", 2, "a", 1, slog.NewGroupedAttr("h", slog.String("x", "y"))))
+		l.Info("m", slog.NewAttr("g", slog.Attrs{}), slog.NewAttr("e", slog.Attrs{slog.NewAttr("in", slog.Attrs{})}))
+		fmt.Printf("%s\n%s", f, b.String())
 	}
 }
